@@ -67,6 +67,32 @@ Definition iota_parse (s : list N) : outcome (list N) did_err :=
   | Panic => Panic
   end.
 
+(* IotaDID::try_from_core on an already parsed CoreDID (method, method id): the checks, then normalisation; after fix e8fe5c5 the
+   normalisation also lower-cases the method id (the tag is decoded case-insensitively, so upper-case hex digits pass the checks) *)
+Definition iota_from_core (mi : list N * list N) : outcome (list N) did_err :=
+  let '(m, i) := mi in
+  if negb (list_eqb m IOTA) then Err EMethodName
+  else let '(n, t) := denorm i in
+       if negb (tag_ok t) then Err EMethodId
+       else if negb (net_ok n) then Err EOther
+       else Ok (iota_normalize (map ascii_lower i)).
+(* the pinned tree kept the method id as it was *)
+Definition iota_from_core_pinned (mi : list N * list N) : outcome (list N) did_err :=
+  let '(m, i) := mi in
+  if negb (list_eqb m IOTA) then Err EMethodName
+  else let '(n, t) := denorm i in
+       if negb (tag_ok t) then Err EMethodId
+       else if negb (net_ok n) then Err EOther
+       else Ok (iota_normalize i).
+(* IotaDID::try_from_core(CoreDID::parse(s)) / TryFrom<CoreDID>: no lower-casing of the input *)
+Definition iota_try_from_core (s : list N) : outcome (list N) did_err := obind (core_did_parse s) iota_from_core.
+(* TryFrom<BaseDIDUrl>: CoreDID::try_from(BaseDIDUrl) is check_validity without the guards of CoreDID::parse *)
+Definition iota_try_from_base (s : list N) : outcome (list N) did_err :=
+  obind (obind (tp_parse s) (fun c => check_validity s c)) iota_from_core.
+(* the id of a deserialised IotaDocument (IotaDID::check_normalized): a valid IOTA DID that normalisation leaves as it is *)
+Definition iota_doc_id (s : list N) : outcome (list N) did_err :=
+  obind (core_did_parse s) (fun mi => obind (iota_from_core mi) (fun v => if list_eqb v (snd mi) then Ok v else Err EMethodId)).
+
 Definition iota_network (mid : list N) : list N := fst (denorm mid).
 Definition iota_tag (mid : list N) : list N := snd (denorm mid).
 Definition iota_to_string (mid : list N) : list N := DID_IOTA_PREFIX ++ mid.
